@@ -210,6 +210,8 @@ class QCow2(AlignedStream):
         return bool(self.header.incompatible_features & c_qcow2.QCOW2_INCOMPAT_EXTL2)
 
     def _read(self, offset: int, length: int) -> bytes:
+        # The buffered stream reads whole aligned blocks, never read past the end of the disk
+        length = min(length, self.size - offset)
         result = []
 
         for sc_type, read_offset, run_offset, run_length in self._yield_runs(offset, length):
